@@ -17,7 +17,8 @@ Ghost: wd, wk : Name -> Name (what a waiting line waits on), R (released bag und
 
 Line oracle (A-PURE): field.value(i, v) ends in exactly one of
   Ok(x) | UnmetDependency(d) with d not in V | MissingInput(k) with k in IM, k not in C
-  | MissingInputSpecification(k) with k not in IM | FieldNotImplemented(name_of field) | another exception,
+  | MissingInputSpecification(k) with k not in IM | InvalidInput(k, text) with k in IM, k in C
+  | FieldNotImplemented(name_of field) | another exception,
 which is what the (separately verified) contracts of FormAccessor / ValueStore /
 InputStore.__getitem__ give for any pure sequential reader.
 """
@@ -282,6 +283,11 @@ class SolverSpec(corevc.Spec):
             k = fresh('key', NAME)
             r.fact(z3.Not(s.IM.has[k]))
             raise Raised(inputs.MissingInputSpecification(wrap(k)), node)
+        if r.branch(fresh('line_invalid_input', z3.BoolSort()), where=f'oracle-inv@{node.lineno}'):
+            # InputStore.__getitem__ (C11): a provided text the validator rejects is reported as InvalidInput, never turned into a value
+            k = fresh('key', NAME)
+            r.fact(z3.And(s.IM.has[k], s.C.mem[k]))
+            raise Raised(inputs.InvalidInput(wrap(k), wrap(fresh('text', z3.StringSort()))), node)
         if r.branch(fresh('line_ni', z3.BoolSort()), where=f'oracle-ni@{node.lineno}'):
             raise Raised(fields.FieldNotImplemented(wrap(name_of(fobj.ref))), node)
         raise Raised(RuntimeError('any other exception raised by a line definition'), node)
